@@ -237,6 +237,8 @@ inductive Tok where
   | error                            -- `#`
   | group (items : List (List Char)) -- `(i1,i2,…)`
   | comma                            -- a comma outside a group (a syntax error)
+  | strayClose                       -- a `)` outside a group: outside the documented syntax, skipped by the tokenizer
+  | strayOpen                        -- a `(` that no `)` closes: outside the documented syntax, skipped by the tokenizer
 deriving Repr, BEq, DecidableEq
 
 def joinComma : List (List Char) → List Char
@@ -251,6 +253,15 @@ def render1 : Tok → List Char
   | .error => ['#']
   | .group items => '(' :: (joinComma items ++ [')'])
   | .comma => [',']
+  | .strayClose => [')']
+  | .strayOpen => ['(']
+
+/-- how far a token advances the frame counter: its length — except that the characters the
+tokenizer skips (unbalanced parentheses) do not advance time at all -/
+def width : Tok → Nat
+  | .strayClose => 0
+  | .strayOpen => 0
+  | t => (render1 t).length
 
 def render : List Tok → List Char
   | [] => []
@@ -268,12 +279,17 @@ def tokOK : Tok → Bool
   | .group items => !items.isEmpty && items.all itemOK
   | _ => true
 
-/-- well-formed token list: every token is well-formed and no value marble is directly followed
-by another one (their renderings would fuse into one marble). -/
+/-- well-formed token list: every token is well-formed, no value marble is directly followed
+by another one (their renderings would fuse into one marble), and a `strayOpen` is really unclosed. -/
 def WF : List Tok → Bool
   | [] => true
   | [t] => tokOK t
-  | t :: u :: r => tokOK t && !(isElemTok t && isElemTok u) && WF (u :: r)
+  | t :: u :: r =>
+    tokOK t && !(isElemTok t && isElemTok u) &&
+      (match t with
+       | .strayOpen => (findClose (render (u :: r))).isNone     -- really unclosed: no `)` follows on the line
+       | _ => true) &&
+      WF (u :: r)
 
 /-- the marbles a token declares, in reading order (group items include the empty ones, which are
 checked against `raise_stopped` but emit nothing) -/
@@ -284,6 +300,8 @@ def marblesOf : Tok → List (List Char)
   | .error => [['#']]
   | .group items => items
   | .comma => []
+  | .strayClose => []
+  | .strayOpen => []
 
 /-- What the documented syntax says a token list means, walking the tokens with the index `p` of the
 token's first character in the (space-free) rendering: a marble gets time `p·timespan + shift`;
@@ -296,7 +314,7 @@ def specGo {α} (cfg : Cfg α) : List Tok → Nat → Bool → Except PErr (List
       match checkAll cfg st (marblesOf t) with
       | .error e => .error e
       | .ok st' =>
-        match specGo cfg ts (p + (render1 t).length) st' with
+        match specGo cfg ts (p + width t) st' with
         | .error e => .error e
         | .ok ms =>
           .ok (((marblesOf t).filter (fun e => !e.isEmpty)).map (mapElement cfg (time cfg p)) ++ ms)
@@ -306,7 +324,14 @@ def spec {α} (cfg : Cfg α) (toks : List Tok) : Except PErr (List (Msg α)) := 
 /-- every marble of a token list with the index of the character that starts its token -/
 def allMarbles : List Tok → Nat → List (Nat × List Char)
   | [], _ => []
-  | t :: ts, p => (marblesOf t).map (fun m => (p, m)) ++ allMarbles ts (p + (render1 t).length)
+  | t :: ts, p => (marblesOf t).map (fun m => (p, m)) ++ allMarbles ts (p + width t)
+
+/-- frame count reached after a token list -/
+def frame : List Tok → Nat
+  | [] => 0
+  | t :: ts => width t + frame ts
+
+def noStray (toks : List Tok) : Bool := toks.all (fun t => decide (t ≠ .strayClose ∧ t ≠ .strayOpen))
 
 def isTerm (m : List Char) : Bool := m == ['#'] || m == ['|']
 
